@@ -216,6 +216,14 @@ def r5_overflow(ctx, P, R="C07.R5"):
             if nm in ("unwrap", "expect", "unwrap_or_default", "unwrap_or", "unwrap_or_else") and f.get("krate") == "core":
                 a = b.prov_operand(t["args"][0], s)
                 src = [c for c in calls_in(a) if c[1].split("::")[-1] in CHECKED_NAMES]
+                if src and nm in ("unwrap_or", "unwrap_or_else") and len(t["args"]) > 1:
+                    fb = b.prov_operand(t["args"][1], s)
+                    if any(c[1].split("::")[-1] in CHECKED_NAMES for c in calls_in(fb)):
+                        # fallback is itself a value that passed a check (e.g. doubling falls back to the checked required cap)
+                        n += 1
+                        ctx.inst(R, b.path, True, f"{nm}: overflow of {src[0][1].split('::')[-1]} falls back to the checked value {show(fb)[:80]}",
+                                 where=b.where(s), site=f"{nm} fallback checked")
+                        continue
                 if src:
                     n += 1
                     ctx.inst(R, b.path, False, f"{nm}() on the result of {src[0][1]}: an overflowing size panics or is silently replaced "
